@@ -14,7 +14,7 @@ def wf_measure(w, pfx, obj, is_pdf=False, logdet=True):
     w.check(f"{pfx}/batch/axes", _lead(L) == _lead(nu) == _lead(obj.ln_beta),
             f"Lambda {L.shape}, nu {nu.shape}, ln_beta {obj.ln_beta.shape}")
     if Sg is not None:
-        w.equal(f"{pfx}/wf/Sigma*Lambda=I", xp.einsum("rij,rjk->rik", Sg, L), xp.eye(Dsz)[None], broadcast=True)
+        _inverse_clause(w, f"{pfx}/wf/Sigma*Lambda=I", Sg, L, Dsz)
         w.equal(f"{pfx}/wf/Sigma-symmetric", Sg, xp.swapaxes(Sg, 1, 2))
     w.equal(f"{pfx}/wf/Lambda-symmetric", L, xp.swapaxes(L, 1, 2))
     if ldS is not None and ldL is not None:
@@ -46,7 +46,7 @@ def wf_measure(w, pfx, obj, is_pdf=False, logdet=True):
 def wf_conditional(w, pfx, c, logdet=True):
     xp = w.xp
     Dsz = c.Sigma.shape[-1]
-    w.equal(f"{pfx}/wf/Sigma*Lambda=I", xp.einsum("rij,rjk->rik", c.Sigma, c.Lambda), xp.eye(Dsz)[None], broadcast=True)
+    _inverse_clause(w, f"{pfx}/wf/Sigma*Lambda=I", c.Sigma, c.Lambda, Dsz)
     w.equal(f"{pfx}/wf/Sigma-symmetric", c.Sigma, xp.swapaxes(c.Sigma, 1, 2))
     if logdet:
         w.equal(f"{pfx}/wf/ln_det_Sigma=-LogDet[Lambda]", c.ln_det_Sigma, -w.logdet(c.Lambda))
@@ -57,6 +57,14 @@ def wf_conditional(w, pfx, c, logdet=True):
         except Exception:  # identity kinds have no M / b
             pass
     w.check(f"{pfx}/batch/axes", len(set(lead)) == 1, f"leading axes {lead}")
+
+
+def _inverse_clause(w, name, Sg, L, Dsz):
+    xp = w.xp
+    if w.symbolic and not Sg.dsum_positions() and w.is_contract_inverse(Sg, L):
+        w.check(name, True, "Lambda is the atom Inv[Sigma] returned by the invert_matrix contract for exactly this Sigma")
+        return
+    w.equal(name, xp.einsum("rij,rjk->rik", Sg, L), xp.eye(Dsz)[None], broadcast=True)
 
 
 def _lead(a):
